@@ -61,6 +61,72 @@ def native(name, conc, notes):
                       f"answering, first draw, what): {bad[:3]} ({len(bad)} failing)"}
 
 
+def native_forget(where):
+    """(in a child process with a time limit: the function under test may not return)"""
+    import multiprocessing as mp
+    ctx = mp.get_context("fork")
+    q = ctx.Queue()
+    p = ctx.Process(target=lambda: q.put(_native_forget(where)))
+    p.start()
+    p.join(20)
+    if p.is_alive():
+        p.kill()
+        p.join()
+        return {"inputs": list(where), "reproduced": None,
+                "detail": f"{where[0]}:{where[2]} in {where[1]} assigns used_addresses (the native scenario did not "
+                          f"finish within 20 s)"}
+    return q.get() if not q.empty() else {"inputs": list(where), "reproduced": None, "detail": "replay died"}
+
+
+def _native_forget(where):
+    """a reservation made by find_free_address, then the unexpected writer runs,
+    then the same address is drawn again"""
+    import asyncio
+    import ebpfcat.ethercat as E
+    fname, qual, line = where
+    detail = f"{fname}:{line} in {qual} assigns used_addresses"
+    ec = object.__new__(E.EtherCat)
+    ec.terminal_addr_range = (1000, 1003)
+    ec.used_addresses = set()
+    state = {"release": None}
+
+    async def roundtrip(cmd, pos, offset, *a, **k):
+        if cmd is E.ECCmd.FPRD:
+            raise E.EtherCatError("datagram was not processed")
+        if cmd is E.ECCmd.APRD and a and a[0] == "4xI":
+            return (4711,)
+        return (0,)
+    ec.roundtrip = roundtrip
+
+    async def count():
+        return 1
+    ec.count = count
+    saved = E.randint
+    E.randint = lambda a, b: 1002
+
+    async def go():
+        first = await ec.find_free_address()        # reserved, not yet written to a terminal
+        meth = getattr(ec, qual.split(".")[-1])
+        try:
+            r = meth()
+            if asyncio.iscoroutine(r):
+                await r
+        except Exception as e:      # noqa
+            return first, None, f"{type(e).__name__}: {e}"
+        E.randint = lambda a, b, seq=iter([1002, 1001, 1000, 1003]): next(seq)
+        second = await ec.find_free_address()
+        return first, second, ""
+    try:
+        first, second, err = asyncio.run(asyncio.wait_for(go(), 5))
+    except Exception as e:      # noqa
+        return {"inputs": list(where), "reproduced": None, "detail": detail + f"; replay failed: {e!r}"}
+    finally:
+        E.randint = saved
+    return {"inputs": list(where), "reproduced": second == first,
+            "detail": detail + f"; real master: find_free_address returned {first}; then {qual}() {err}; the next "
+                      f"find_free_address (drawing the same number first) returned {second}"}
+
+
 def run(tier, seed):
     from contracts import c25_addr as S
     rep = R.Report("C25", tier, seed)
@@ -71,6 +137,20 @@ def run(tier, seed):
     rep.assume("random.randint(a, b) returns any integer in [a, b]; termination of the retry loop is not claimed")
     api.verify(S.find_free_address, rep, replay=native)
     api.verify(S.assigned_address, rep, replay=native)
+    # "used only grows" is proved for find_free_address; that nothing else in
+    # the package replaces the set is a frame condition over the source
+    from props import c18
+    from vc import smt
+    ws = c18.field_writers("used_addresses")
+    extra = [w for w in ws if w[1] not in ("EtherCat.__init__",)]
+    rep.obligation("EtherCat.used_addresses.assigned_only_by[__init__]",
+                   smt.Result(smt.PROVED if ws and not extra else smt.REFUTED, "ast-scan", 0.0, None,
+                              f"assignments found: {ws}"),
+                   func="ebpfcat package",
+                   text="frame condition: the set of reserved addresses is created by EtherCat.__init__ and "
+                        "afterwards only added to (find_free_address); no function assigns a new set - a "
+                        "reservation that is not yet written to a terminal would be forgotten",
+                   replay=(lambda m: native_forget(extra[0])) if extra else None)
     return rep.finish(
         explanation="pyvc: the real source of EtherCat.find_free_address with a loop invariant (the used set only "
         "grows) under the rely that concurrent callers only add addresses: the returned address is in range, was "
